@@ -190,8 +190,17 @@ package arvados
 //@ axiom forall r $row[storedSegment], o int, k int :: {stsum(r, o, k)} k > 0 ==> stsum(r, o, k) == stsum(r, o, k-1) + int64(r[ix(o, k-1)].length)
 
 // Creating directory entries does not touch the block list being parsed.
-//@ func dirnode.createFileAndParents property C09,C10
+// A nil error - for the "directory exists" marker (last component ".") too -
+// is returned only after the walk over all parent components, which creates
+// the missing ones, has run to its end (an empty directory of a collection
+// exists only through that marker).
+//@ func dirnode.createFileAndParents property C09,C10,C17 safety -bounds,-nil
 //@   modifies except(mem:storedSegment mem:string)
+//@   ghost walked bool = false
+//@   at loop 1 exit: set walked = true
+//@   ensures err == nil ==> walked
+//@   calls inode.Child#1: requires $0 == name
+//@   calls inode.Child#2: requires walked && $0 == basename
 //@ func manifestUnescape property C09,C10
 //@   modifies nothing
 //@ func filenode.appendSegment property C09,C10
